@@ -1074,6 +1074,8 @@ def _reader_dispatch_shape(cx, rep, port, p, fd):
 def _writer_dispatch(cx, rep, port, p):
     w = p.cls('rbql_csv', 'CSVWriter')
     wm = _csv_writer_model(cx, port)
+    if wm is None:
+        rep._fallback = 'the CSV writer is outside the abstract interpreter'
     if wm is not None:
         rep.decide(wm == '', 'writer dispatch', w, 'total over the five policies; quoted->quote_field, quoted_rfc->rfc_quote_field, monocolumn->single field (writer constructed for each policy and evaluated on 6 records)', wm)
         return
@@ -1146,6 +1148,76 @@ def _policies_in_test(t):
     return out
 
 
+def _csv_writer_model_js(cx):
+    """the JS CSV writer: the constructor is evaluated for each policy over an abstract stream, then normalize_fields and the join method it
+    installed are applied to the records of the Python model: the line text per record, the monocolumn error, and the separator-in-field
+    flag for fields that contain the delimiter.  '' / problem / None (write() itself wraps the stream in a Promise and is not evaluated)"""
+    from .. import absexec as AX
+    import copy
+    p = cx.port('js')
+    cls = p.cls('rbql_csv', 'CSVWriter')
+    ms = {m.name: m for m in cls.body if isinstance(m, ast.FunctionDef)}
+    init, nf = ms.get('__init__'), ms.get('normalize_fields')
+    if init is None or nf is None or len(init.args.args) < 6:
+        raise Undecided('CSVWriter constructor / normalize_fields', cls)
+
+    def q(f, d, rfc):
+        if '"' in f:
+            return '"' + f.replace('"', '""') + '"'
+        if d in f or (rfc and ('\n' in f or '\r' in f)):
+            return '"' + f + '"'
+        return f
+    records = [['a', 'b c', ''], ['d,e', 'q"r'], [None, 5, ['x', 'y']], ['multi\nline', 'z'], ['solo'], ['sp ace'], ['x,y'], ['', ''], ['a', 'b'], ['k:=v', 'w']]
+    out = ''
+    for policy, delim in (('simple', ','), ('whitespace', ' '), ('quoted', ','), ('quoted_rfc', ','), ('monocolumn', ''), ('quoted', ':=')):
+        selfv, stream = AX.Abs('Self'), AX.Abs('Stream')
+
+        def on_call(ex, node, fname, recv, args):
+            short = node.func.attr if isinstance(node.func, ast.Attribute) else fname
+            if recv is stream and short in ('on', 'setDefaultEncoding', 'write'):
+                return None
+            if isinstance(node.func, ast.Name) and node.func.id.endswith('Error'):
+                return AX.Abs('Exc', cls=node.func.id)
+            if fname == 'Array.isArray' and len(args) == 1:
+                return isinstance(args[0], list)
+            return AX.NOT_HANDLED
+        ex = AX.Explorer(p, 'rbql_csv', on_call=on_call, max_choices=1)
+        ex.cls = 'CSVWriter'
+        ex._script, ex._pos, ex.steps, ex.depth = [], 0, 0, 0
+        ex.run = AX.Run()
+        ex.call_fd(init, [selfv, stream, False, None, delim, policy])
+        jm = ex.run.state.get((selfv.uid, 'polymorphic_join'))
+        if not (isinstance(jm, tuple) and len(jm) == 3 and jm[0] == 'method'):
+            raise Undecided('the constructor does not install a join method for policy {}'.format(policy), init)
+        jfd = ex.find_method('CSVWriter', jm[2])
+        if jfd is None:
+            raise Undecided('join method {} not found'.format(jm[2]), cls)
+        for rec in records:
+            fields = copy.deepcopy(rec)
+            norm = ['' if f is None else ('|'.join(f) if isinstance(f, list) else str(f)) for f in rec]
+            if policy in ('simple', 'whitespace'):
+                ex.run.state[(selfv.uid, 'delim_in_simple_output')] = False
+            ex.steps, ex.depth = 0, 0
+            ex.call_fd(nf, [selfv, fields])
+            what = 'policy {} (delimiter {!r}), record {!r}'.format(policy, delim, rec)
+            try:
+                got = ex.call_fd(jfd, [selfv, fields])
+                raised = False
+            except AX.Raised as r_:
+                got, raised = r_.value, True
+            if policy == 'monocolumn' and len(rec) > 1:
+                if not (raised and isinstance(got, AX.Abs) and got.props.get('cls') == 'RbqlIOHandlingError') and not out:
+                    out = '{}: a record of several fields is not rejected with the IO handling error'.format(what)
+                continue
+            want = norm[0] if policy == 'monocolumn' else (delim.join(norm) if policy in ('simple', 'whitespace') else delim.join(q(f, delim, policy == 'quoted_rfc') for f in norm))
+            if (raised or got != want) and not out:
+                out = '{}: the line is {!r} instead of {!r}'.format(what, 'an error' if raised else got, want)
+            if policy in ('simple', 'whitespace') and any(delim in f for f in norm):
+                if not ex.run.state.get((selfv.uid, 'delim_in_simple_output'), False) and not out:
+                    out = '{}: a field contains the delimiter but delim_in_simple_output stays false: the "fields contain separator" warning is lost'.format(what)
+    return out
+
+
 def _csv_writer_model(cx, port):
     """the Python CSV writer, constructed for each of the five policies over an abstract stream, evaluated on six records (plain, with the
     delimiter, with a quote, with a line break, with a missing value / a number / a nested list, a single field): what reaches the
@@ -1158,7 +1230,9 @@ def _csv_writer_model(cx, port):
     res = None
     try:
         if port != 'py':
-            raise Undecided('python only', None)
+            res = _csv_writer_model_js(cx)
+            setattr(cx, memo, res)
+            return res
         p = cx.port(port)
         cls = p.cls('rbql_csv', 'CSVWriter')
         ms = {m.name: m for m in cls.body if isinstance(m, ast.FunctionDef)}
@@ -1257,7 +1331,7 @@ def rule_cs_writer(cx, rep, port):
     ms = {m.name: m for m in w.body if isinstance(m, ast.FunctionDef)}
     wr = ms['write']
     wm = _csv_writer_model(cx, port)
-    if wm is not None:
+    if wm is not None and port == 'py':
         for k_ in ('line separator', 'record line', 'delimiter join', 'separator check coverage'):
             rep.decide(wm == '', k_, wr, 'per record the stream receives the dialect\'s line and one line separator; the separator-in-field flag follows the written fields (writer constructed for 5 policies, 6 records each)', wm)
         return
@@ -1279,7 +1353,9 @@ def rule_cs_writer(cx, rep, port):
     # join by delimiter
     jname = 'join_by_delim' if port == 'py' else 'simple_join'
     j = ms.get(jname)
-    if j is None:
+    if wm is not None and port == 'js':
+        rep.decide(wm == '', 'delimiter join', w, 'the join method installed for each policy produces the dialect\'s line (constructor, normalize_fields and join evaluated for 6 policy / delimiter pairs on 10 records)', wm)
+    elif j is None:
         rep.undecided('delimiter join', w, 'method {} not found'.format(jname))
     else:
         joins = [c for c in walk_no_nested(j) if isinstance(c, ast.Call) and isinstance(c.func, ast.Attribute) and c.func.attr == 'join']
